@@ -180,5 +180,66 @@ def opComp (c : Cfg) (op : BinOp) (a b : Opnd N) : Bool :=
   | a, b => (scalarComp c op a b).1
 
 end C
+
+/-! ## libyang, with the type-aware canonisation of a string operand (`set_comp_canonize` in `moveto_op_comp_item`)
+
+XPath 1.0 §3.4 compares the string-VALUE of a node with the string; RFC 7950 §6.4 adds nothing: `/c/n = '05'` is false when the
+int32 leaf `n` holds `5`.  libyang first stores the string through the type plug-in of the node it is compared with and, when
+that succeeds, compares the CANONICAL form (`'05'`, `'+5'`, `' 5 '` all become `5`): true.  This is a deliberate deviation
+(finding F355, switch `Quirks.canonStr`).  The string operand is overwritten, so a later node of the same set sees the
+canonised string; in node-set × node-set the string-value of each node of the first set is canonised by the types of the
+nodes of the second set it meets. -/
+namespace CZ
+
+/-- one node of a node-set operand: its string-value and the canoniser of its type (identity for a node that is not a
+terminal, a text node, and for string / boolean / enumeration terminals) -/
+structure Item where
+  sv : Bytes
+  canon : Bytes → Bytes
+
+def canonOpnd (cz : Bytes → Bytes) : Opnd N → Opnd N
+  | .str s => .str (cz s)
+  | o => o
+
+/-- `C.nsScalar` with `set_comp_canonize(set2, node)` between `set_comp_cast` and the comparison -/
+def nsScalar (c : Cfg) (op : BinOp) : List Item → Opnd N → Bool → Bool × Opnd N
+  | [], o, _ => (false, o)
+  | it :: rest, o, sw =>
+    let tmp := C.itemCast c it.sv o
+    let o1 := canonOpnd it.canon o
+    let r := if sw then C.scalarComp c op o1 tmp else C.scalarComp c op tmp o1
+    let o' := if sw then r.2.1 else r.2.2
+    if r.1 then (true, o') else nsScalar c op rest o' sw
+
+def nsNs (c : Cfg) (op : BinOp) : List Item → List Item → Bool
+  | [], _ => false
+  | it :: rest, l2 =>
+    if (nsScalar c op l2 (.str it.sv : Opnd N) true).1 then true else nsNs c op rest l2
+
+/-- operand with the canonisers of its nodes -/
+inductive OpndZ (N : Type)
+  | ns (items : List Item)
+  | sc (o : Opnd N)
+
+def OpndZ.plain : OpndZ N → Opnd N
+  | .ns l => .ns (l.map (·.sv))
+  | .sc o => o
+
+/-- `moveto_op_comp`.  `nsBool = false`: node-set × boolean converts the node-set with `boolean()` first (REC §3.4, the repaired
+code); `true`: per-node evaluation (finding F256). -/
+def opComp (c : Cfg) (nsBool : Bool) (op : BinOp) (a b : OpndZ N) : Bool :=
+  match a, b with
+  | .ns l1, .ns l2 => nsNs (N := N) c op l1 l2
+  | .ns l, .sc (.bool y) =>
+    if nsBool then (nsScalar c op l (.bool y : Opnd N) false).1
+    else (C.scalarComp c op (.bool (!l.isEmpty) : Opnd N) (.bool y)).1
+  | .sc (.bool x), .ns l =>
+    if nsBool then (nsScalar c op l (.bool x : Opnd N) true).1
+    else (C.scalarComp c op (.bool x : Opnd N) (.bool (!l.isEmpty))).1
+  | .ns l, .sc o => (nsScalar c op l o false).1
+  | .sc o, .ns l => (nsScalar c op l o true).1
+  | .sc a, .sc b => (C.scalarComp c op a b).1
+
+end CZ
 end
 end LyModel.XPath.Comp
